@@ -239,6 +239,9 @@ func buildVerify(f vfeat) {
 
 func genVerify() {
 	f := vfeat{nIn: []int{0, 1, 1, 1, 2, 2, 2, 3, 3}[rng.Intn(9)], nOut: []int{0, 1, 1, 1, 2, 2, 2, 3, 3}[rng.Intn(9)]}
+	if rng.Intn(10) == 0 {
+		f.nIn = 8 + rng.Intn(9) // many inputs: every signature counts, wherever it stands
+	}
 	f.dupIn, f.dupOut, f.zero, f.ovf = rng.Intn(12) == 0, rng.Intn(12) == 0, rng.Intn(16) == 0, rng.Intn(16) == 0
 	f.badLen, f.badInner = rng.Intn(16) == 0, rng.Intn(16) == 0
 	if rng.Intn(16) == 0 {
@@ -250,9 +253,13 @@ func genVerify() {
 	case 1:
 		f.dSig = -1
 	}
+	one := -1
+	if f.nIn >= 8 {
+		one = rng.Intn(f.nIn) // exactly one flawed signature, at a random place
+	}
 	for i := 0; i < f.nIn+1; i++ {
 		kind := "valid"
-		if rng.Intn(5) == 0 {
+		if (one < 0 && rng.Intn(5) == 0) || i == one {
 			kind = []string{"null", "null", "highs", "recid4", "zeros", "zeror"}[rng.Intn(6)]
 		}
 		f.kinds = append(f.kinds, kind)
